@@ -93,6 +93,16 @@ def floor(ctx, keys, seed):
             ctx.violation(signature(key, v['law'], v['detail']),
                           '%s: %s   [input %s%s, %d of %d parsed inputs]' % (key, v['text'].replace('\n', ' '), v['hex'][:96], '…' if len(v['hex']) > 96 else '', v['count'], d['parsed']),
                           {'key': key, 'hex': v['hex'], 'law': v['law'], 'detail': v['detail'], 'impl': v['text']})
+    kinds = {}
+    for key in keys:
+        for pk in res[key]['parse_fail']:
+            kinds.setdefault(pk.split(':', 1)[1], set()).add(key.split('[')[0])
+    explicit = {'ValueError': 'strict enum value not recognised', 'KeyError': 'container: unknown config / fault type', 'StreamError': 'construct: buffer too short',
+                'error': 'struct: buffer too short', 'StringError': 'construct: bytes are not UTF-8', 'UnicodeDecodeError': 'bytes are not UTF-8'}
+    ctx.coverage['parse_failures'] = {k: {'classes': sorted(v), 'explicit_refusal': explicit.get(k, False)} for k, v in sorted(kinds.items())}
+    unexpected = sorted(k for k in kinds if k not in explicit)
+    if unexpected:
+        ctx.notes.append('parse failures that are not explicit refusals (outside the property: it speaks of inputs that parse): %s' % ', '.join('%s in %s' % (k, sorted(kinds[k])) for k in unexpected))
     if never_parsed:
         ctx.notes.append('keys for which no generated input parsed (property vacuous there): %s' % ', '.join(never_parsed))
     ctx.coverage['greedy_layouts'] = sorted(k for k in keys if res[k].get('greedy'))
@@ -216,9 +226,22 @@ def compare_env(desc, envtext, fl):
     return None
 
 
+def build_model():
+    """the extracted runner; rebuilt only when one of its sources is newer (extraction depends on Models/ and Generated/ only)"""
+    exe = os.path.join(vf.BUILD, 'ocaml', 'c01', 'c01.exe')
+    srcs = [os.path.join(vf.THEORIES, x) for x in ('Extract/C01.v', 'Models/CodecM.v', 'Models/CodecTs.v', 'Generated/LayoutPy.v', 'Generated/CodecConsts.v')]
+    srcs += [os.path.join(vf.VERIF, 'ocaml', 'c01_driver.ml'), os.path.join(vf.VERIF, 'ocaml', 'conv.ml')]
+    try:
+        if os.path.getmtime(exe) > max(os.path.getmtime(x) for x in srcs):
+            return exe
+    except OSError:
+        pass
+    return vf.build_extracted('c01', 'C01', 'c01_driver.ml')
+
+
 def correspondence(ctx, res, gen):
     """every evaluated input of every described class: IMPL unpack/pack/calcsize vs MODEL decode/encode/sizeof"""
-    model = vf.build_extracted('c01', 'C01', 'c01_driver.ml')
+    model = build_model()
     descs = gen['descriptions']
     lines, meta = [], []
     for key, d in descs.items():
@@ -269,13 +292,127 @@ def correspondence(ctx, res, gen):
     return nbad
 
 
+# ------------------------------------------------------------------------------------------------
+# Timestamp adapter: IMPL vs integer model vs primitive-float model, and the projection law, evaluated in coqc
+# ------------------------------------------------------------------------------------------------
+
+def ts_cases(ctx):
+    r = ctx.rng
+    edge_ns = [0, 1, 2, 499999999, 500000000, 500000001, 999999998, 999999999]
+    nsec, nrand = (8, 240) if ctx.thorough else (2, 10)
+    cases = [(529378, 273878287), (0, 0)]
+    for k in range(0, 32):
+        lo, hi = 1 << k, (1 << (k + 1)) - 1
+        secs = {lo, min(lo + 1, hi), hi} | {r.randrange(lo, hi + 1) for _ in range(nsec)}
+        for sec in sorted(secs):
+            for ns in edge_ns + [r.randrange(10 ** 9) for _ in range(nrand)]:
+                cases.append((sec, ns))
+    # outside the domain of the law: sentinels, ns >= 10^9, seconds reaching 2^32-1
+    out = [(0xFFFFFFFF, 0), (0, 0xFFFFFFFF), (0xFFFFFFFF, 0xFFFFFFFF), (0xFFFFFFFF, 5), (0, 3221225472), (4294967294, 999999999), (4294967294, 1),
+           (7, 4294967294), (4294967290, 4294967290), (4294967293, 4294967294), (123, 1000000000), (123, 1999999999)]
+    out += [(r.randrange(1 << 32), r.randrange(10 ** 9, 1 << 32)) for _ in range(60)]
+    return list(dict.fromkeys(cases + out))
+
+
+def ts_evaluation(ctx):
+    cases = ts_cases(ctx)
+    env = dict(vf.IMPL_ENV)
+    p = subprocess.run([vf.PY, HARNESS, 'ts'], input=json.dumps(cases), capture_output=True, text=True, timeout=1200, env=env)
+    lines = [l for l in p.stdout.split('\n') if l.startswith('[')]
+    if p.returncode != 0 or not lines:
+        raise RuntimeError('timestamp IMPL run failed: ' + p.stderr[-1500:])
+    impl = json.loads(lines[-1])
+    for (sec, ns), (bits, es, en, same) in zip(cases, impl):
+        ctx.case(('ts', sec, ns)); ctx.count('timestamp-grid')
+        if not same:
+            ctx.violation({'class': 'TimestampAdapter', 'law': 'adapter-vs-class'},
+                          'TimestampConstruct parse/build and Timestamp.unpack/pack differ on stamp (%d s, %d ns)' % (sec, ns),
+                          {'key': 'Timestamp', 'hex': struct.pack('<II', sec, ns).hex()})
+    hdr = ('From Coq Require Import ZArith List Bool.\nFrom FEC Require Import Models.CodecTs Models.TimestampF.\nImport ListNotations.\nOpen Scope Z_scope.\n'
+           'Definition c (a b d e f : Z) : TsF_case := {| tc_sec := a; tc_ns := b; tc_dec_bits := d; tc_enc_sec := e; tc_enc_ns := f |}.\n')
+    tail = ('Definition ts_disagree := map (fun x => (tc_sec x, tc_ns x)) (filter (fun x => negb (TsF_case_agree x)) ts_cases).\n'
+            'Definition ts_not_projecting := map (fun x => (tc_sec x, tc_ns x)) (filter (fun x => negb (TsF_case_projects x)) ts_cases).\n')
+    lemma = 'Lemma ts_cases_evaluation : ts_disagree = [] /\\ ts_not_projecting = [].\nProof. vm_compute. split; reflexivity. Qed.\n'
+    rows = ['c %d %d (%d) (%d) (%d)' % (sec, ns, bits, es, en) for (sec, ns), (bits, es, en, _) in zip(cases, impl)]
+    SH = 2500
+    shards = [rows[i:i + SH] for i in range(0, len(rows), SH)]
+
+    def one(ix):
+        body = hdr + 'Definition ts_cases : list TsF_case := [\n' + ';\n'.join(shards[ix]) + '].\n' + tail
+        src = os.path.join(ctx.tmp, 'CodecTsCases%d.v' % ix)
+        open(src, 'w').write(body + lemma)
+        cmd = 'timeout 1500 coqc -R theories FEC -o %s %s' % (src + 'o', src)
+        rc, so, se = vf.sh(cmd, cwd=vf.COQ, timeout=1560)
+        if rc != 0:
+            # evaluate again, this time printing the offending stamps
+            open(src, 'w').write(body + 'Eval vm_compute in (length ts_cases, ts_disagree, ts_not_projecting).\n')
+            rc2, so, se2 = vf.sh(cmd, cwd=vf.COQ, timeout=1560)
+            se = se + se2
+        return rc, so, se
+    with ThreadPoolExecutor(min(vf.NCPU, len(shards))) as ex:
+        results = list(ex.map(one, range(len(shards))))
+    ok = all(rc == 0 for rc, _, _ in results)
+    so = '\n'.join(x[1] for x in results if x[0] != 0)
+    se = '\n'.join(x[2] for x in results if x[0] != 0)
+    ctx.obligation('timestamp grid EVALUATION (not a proof): on %d generated stamps implementation = integer model = primitive-float model for decode and '
+                   're-encode, and every stamp of the domain satisfies the projection law' % len(cases), ok, 'evaluation', (so + se)[-400:])
+    if not ok:
+        import re
+        dis, npj = [], []
+        for m in re.finditer(r'= \((\d+)%nat,\s*(\[.*?\]),\s*(\[.*?\])\)', so, re.S):
+            dis += re.findall(r'\((\d+),\s*(\d+)\)', m.group(2))
+            npj += re.findall(r'\((\d+),\s*(\d+)\)', m.group(3))
+        for sec, ns in npj[:3]:
+            ctx.violation({'class': 'Timestamp', 'law': 'reparse-values-differ', 'detail': 'seconds', 'source': 'timestamp-grid'},
+                          'stamp (%s s, %s ns) of the domain does not satisfy the projection law' % (sec, ns),
+                          {'key': 'Timestamp', 'hex': struct.pack('<II', int(sec), int(ns)).hex()})
+        if dis or not npj:
+            sec, ns = dis[0] if dis else ('?', '?')
+            ctx.broken_correspondence('timestamp models and implementation differ on stamp (%s s, %s ns)' % (sec, ns) if dis else
+                                      'the timestamp grid could not be evaluated in coqc',
+                                      {'key': 'Timestamp', 'hex': struct.pack('<II', int(sec), int(ns)).hex() if dis else '', 'log': (so + se)[-1500:]})
+    ctx.coverage['timestamp_grid'] = ('%d stamps: per binade of the seconds field 2^k..2^(k+1)-1, k = 0..31: both ends, the next value and %d random seconds, each with the '
+                                      'nanosecond values 0, 1, 2, 499999999, 500000000, 500000001, 999999998, 999999999 and %d random ones; plus sentinel / ns >= 10^9 / '
+                                      'overflowing stamps outside the domain of the law' % (len(cases), 8 if ctx.thorough else 2, 240 if ctx.thorough else 10))
+    return ok
+
+
 def run(ctx):
-    gen = gen_c01.generate()
-    ctx.coverage['described_classes'] = sorted(gen['descriptions'])
-    ctx.coverage['law_only_classes'] = gen['inexpressible']
-    if not ctx.coq():
-        ctx.broken_proof()
+    # 1. regenerate constants / descriptions (fail closed: a translator that no longer understands the source is a
+    #    broken obligation; the failing-input search below still runs, it does not need the model)
+    gen = None
+    try:
+        gen = gen_c01.generate()
+        ctx.obligation('translators/gen_c01.py understands the source (Timestamp code matches the transcribed models; descriptions derived)', True, 'translator')
+    except Exception as e:
+        ctx.obligation('translators/gen_c01.py understands the source (Timestamp code matches the transcribed models; descriptions derived)', False, 'translator', str(e)[:1500])
+        ctx.pending_broken = {'kind': 'translator', 'what': 'the C01 translator no longer recognises the source: %s' % str(e)[:600], 'trace': str(e)[:3000]}
+        try:
+            gen = json.load(open(DESC_JSON))      # descriptions of the previous run: good enough to steer input generation
+            gen_stale = True
+        except Exception:
+            gen = None
+    stale = gen is None or getattr(ctx, 'pending_broken', None) is not None
+    ctx.log('descriptions generated' if not stale else 'translator failed; continuing with the law evaluation')
+    if gen is not None:
+        ctx.coverage['described_classes'] = sorted(gen['descriptions'])
+        ctx.coverage['law_only_classes'] = gen['inexpressible']
+    # 2. proofs
+    if not stale:
+        if not ctx.coq(['theories/Models/TimestampF.vo']):
+            ctx.broken_proof()
+        elif ctx.thorough and not ctx.coqchk():
+            ctx.broken_proof('coqchk does not accept the compiled development')
+        ctx.log('coq done')
     seed = ctx.rng.randrange(1 << 30)
+    if not stale:
+        try:
+            ts_evaluation(ctx)
+        except Exception as e:
+            ctx.obligation('timestamp grid evaluation ran', False, 'evaluation', repr(e)[:500])
+            if not getattr(ctx, 'pending_broken', None):
+                ctx.pending_broken = {'kind': 'machinery', 'what': 'timestamp grid evaluation failed: %r' % (e,)}
+        ctx.log('timestamp grid done')
     rc, so, se = _impl(['list'])
     if rc != 0 or not so.strip().startswith('['):
         raise RuntimeError('cannot enumerate payload classes: ' + se[-1500:])
@@ -283,7 +420,10 @@ def run(ctx):
     ctx.coverage['classes'] = [k for k in keys if '[' not in k]
     ctx.coverage['container_subpayloads'] = [k for k in keys if '[' in k]
     res = floor(ctx, keys, seed)
-    correspondence(ctx, res, gen)
+    ctx.log('laws done')
+    if not stale:
+        correspondence(ctx, res, gen)
+        ctx.log('correspondence done')
     ctx.sample({k: {'inputs': res[k]['evals'], 'parsed': res[k]['parsed'], 'parse_fail': res[k]['parse_fail']} for k in list(res)[:6]})
     ctx.coverage['rule'] = ('every class registered in MessagePayload.message_type_to_class + MessageHeader, Timestamp, MeasurementDetails, SatelliteInfo + one key per '
                             'registered ConfigType / InterfaceConfigType / FaultType sub-payload inside SetConfigMessage, ConfigResponseMessage, FaultControlMessage. '
@@ -297,10 +437,23 @@ def run(ctx):
 
 
 def replay(ctx, rec):
-    case = rec.get('case', rec)
+    case = rec.get('case', rec.get('detail', {}).get('case', rec))
+    if 'key' not in case or not case.get('hex') and case.get('hex') != '':
+        print(json.dumps(rec, indent=1)[:4000])
+        return 0
     rc, so, se = _impl(['one', case['key'], case['hex']])
-    print('IMPL (laws of the property evaluated on the implementation = SPEC comparison):')
+    print('IMPL + SPEC (the laws of the property evaluated on the implementation; "viol" lists the laws that fail):')
     print(so)
     if se.strip():
         print(se[-2000:])
+    try:
+        gen = json.load(open(DESC_JSON))
+        d = gen['descriptions'].get(case['key'])
+        if d is None:
+            print('MODEL: no wire description for %s (law evaluation only)' % case['key'])
+        else:
+            print('MODEL (extracted decode/encode/sizeof, description #%d):' % d['index'])
+            print(vf.run_lines(build_model(), ['D %d %s' % (d['index'], case['hex'] or '-')])[1])
+    except Exception as e:
+        print('MODEL: not available (%r)' % (e,))
     return 0
